@@ -62,8 +62,55 @@ def run(R):
         R.obligation_broken("correspondence C08/dispatch", f"loader={l!r} protocol={pr!r}: implementation {o}, model {model}")
     old_layouts(R, rnd)
     golden(R)
+    deployments(R, cases, obs)
     if not ok or bad:
         search(R, snap, bad, cases, obs)
+
+
+def deployments(R, cases, obs):
+    """the loader chosen for (node kind, protocol) must not depend on how skops is installed: the same exhaustive dispatch
+    table is recomputed with skops imported from a byte-compiled tree WITHOUT sources and from a zip bundle on sys.path"""
+    import os
+    import shutil
+    import subprocess
+    import zipfile
+    base = C.BUILD / "run" / "C08" / "deploy"
+    shutil.rmtree(base, ignore_errors=True)
+    try:
+        (base / "sourceless").mkdir(parents=True)
+        (base / "zip").mkdir()
+        ign = shutil.ignore_patterns("tests", "__pycache__")
+        shutil.copytree(C.REPO / "skops", base / "sourceless" / "skops", ignore=ign)
+        r = subprocess.run([C.PY, "-m", "compileall", "-b", "-q", str(base / "sourceless" / "skops")], capture_output=True)
+        for d, _, fs in os.walk(base / "sourceless"):
+            for f in fs:
+                if f.endswith(".py"):
+                    os.unlink(os.path.join(d, f))
+        with zipfile.ZipFile(base / "zip" / "skops_bundle.zip", "w") as z:
+            for d, ds, fs in os.walk(C.REPO / "skops"):
+                ds[:] = sorted(x for x in ds if x not in ("tests", "__pycache__"))
+                rel = os.path.relpath(d, C.REPO)
+                z.write(d, rel)
+                for f in sorted(fs):
+                    z.write(os.path.join(d, f), os.path.join(rel, f))
+        for form, path in (("sourceless", base / "sourceless"), ("zip-bundle", base / "zip" / "skops_bundle.zip")):
+            p = C.run_impl("impl_io.py", input_obj={"mode": "dispatch", "cases": cases},
+                           extra_env={"PYTHONPATH": f"{path}:{C.VERIF / 'harness'}"})
+            if p.returncode != 0:
+                R.obligation_broken("correspondence C08/deployment " + form, "skops.io does not import / dispatch from a " + form + " installation: "
+                                    + p.stderr.decode(errors="replace")[-600:])
+                continue
+            other = json.loads(p.stdout)
+            for (l, pr), a, b in zip(cases, obs, other):
+                R.count(f"deployment:{form}:" + ("same" if a == b else "differs"))
+                if a != b:
+                    R.violation({"kind": "dispatch-depends-on-deployment", "form": form, "loader": l if isinstance(l, str) else None},
+                                f"skops imported from a {form} installation selects {b} for (loader {l!r}, protocol {pr!r}); the source tree selects {a}",
+                                {"deployment": form, "loader": l, "protocol": pr})
+            R.case(["deployment", form, C.sha(other)], nontrivial=True)
+    finally:
+        shutil.rmtree(base, ignore_errors=True)
+    R.notes["deployment_forms"] = ["byte-compiled tree without .py sources (compileall -b)", "zip bundle on sys.path"]
 
 
 def golden(R):
